@@ -21,6 +21,7 @@ func checkC02(p *Prog, c *Check) {
 	c02Fired(p, c)
 	linearSearchRule(p, c, "C02-R9.member", "keyper/database.GetKeyperIndex", "$p1")
 	matchOperatorTable(p, c, "C02-R6.match")
+	absentValueRule(p, c, "C17-R8")
 	// a fired-trigger row must not outlive the block it was seen in: rollbacks of all processors delete
 	// exactly what lies above the stored position (shared with C15/C16)
 	for _, sp := range syncers {
